@@ -299,3 +299,23 @@ CONFIG = {
         "thorough": {"checks": 1500, "shards": 16, "timeout": 7200},
     },
 }
+
+# Extensions that came out of the third round of seeded changes (DESIGN.md 8.6), appended to the rules.
+_MORE = {
+    "C01": " In 1/6 of the draws of the 24 indicators with a field route the instance is a RECONFIGURED one: configured with another generated configuration, run once over 0-40 canned values, "
+           "then assigned the exported fields of the configuration under test. In 1/6 of all generated bars prices are multiplied by an exact power of two between 2^-40 and 2^30 (the unit of quote).",
+    "C02": " Alignment probe (every indicator without a recorded formula defect): one input position is changed; wherever the reference at absolute positions moves by more than 2 x 16 x both error "
+           "bounds, value #(position - w) of that output must move too.",
+    "C06": " In 1/6 of the cases prices carry an exact power-of-two unit of quote (2^-40 .. 2^30); the expected actions are derived at the natural unit (documented rules are homogeneous in the price unit).",
+    "C07": " NestedExpressions: And/Or/Majority/Split/Inverse/NoLoss/StopLoss over each other (depth <= 3, 1-4 scripted leaves) against the recursively composed slice models; non-trivial = depth >= 2 and a non-Hold expected action.",
+    "C08": " ActionsToAnnotations of every legal word equals the letters of the normalised model.",
+    "C10": " GetSince bounds are whole UTC days in 2/3 of the draws and otherwise carry 1..86399 seconds within the day; a quarter of them are presented in a zone -12h..+14h (comparison of instants).",
+    "C11": " RowE: five date columns in different declared formats (month-first, day-first, compact, minute, default) over a small pool of days whose month-first and day-first texts collide.",
+    "C12": " After the two runs the injected faults are lifted and Sync runs a third time (the retry): the target must then hold previous + missing days for every requested asset present in the source, and the source must hold what it held before.",
+    "C13": " In a quarter of the cases the same Backtest runs a second time on the same report instance with a shorter strategy list; the report must then hold exactly the second run's results.",
+    "C14": " In 1/6 of the cases snapshots are dated at local midnight of a zone between -12h and +14h; the rendered page is parsed (date cell included: the calendar day of the snapshot) for a third of the cases in the quick tier and all in the thorough tier.",
+    "C15": " DonchianChannel over positive integer price series (int, int64, int32, int16; flat runs, odd and even values): upper >= middle >= lower and lower <= price <= upper exactly.",
+    "C17": " MovingMinMax/<type>: trend.MovingMin and trend.MovingMax (the sliding-window clients of the tree) over all seven element types, periods 1-6, series of 0-24 values from the same alphabets, against the window's minimum and maximum.",
+}
+for _k, _v in _MORE.items():
+    CONFIG[_k]["rule"] += _v
